@@ -392,12 +392,25 @@ pub(crate) fn parse_unknown_ifdata(
                 if let Ok(num) = parser.get_integer::<i32>(context) {
                     let line_offset = parser.get_line_offset();
                     items.push(GenericIfData::Long(line_offset, num));
+                } else if let Ok(num) = {
+                    // integers that don't fit into 32 bits must not be squeezed through a float
+                    parser.undo_get_token();
+                    parser.get_integer::<i64>(context)
+                } {
+                    let line_offset = parser.get_line_offset();
+                    items.push(GenericIfData::Int64(line_offset, num));
+                } else if let Ok(num) = {
+                    parser.undo_get_token();
+                    parser.get_integer::<u64>(context)
+                } {
+                    let line_offset = parser.get_line_offset();
+                    items.push(GenericIfData::UInt64(line_offset, num));
                 } else {
                     // try again, looks like the number is a float instead
                     parser.undo_get_token();
-                    let floatnum = parser.get_float(context)?; // if this also returns an error, it is neither int nor float, which is a genuine parse error
+                    let floatnum = parser.get_double(context)?; // if this also returns an error, it is neither int nor float, which is a genuine parse error
                     let line_offset = parser.get_line_offset();
-                    items.push(GenericIfData::Float(line_offset, floatnum));
+                    items.push(GenericIfData::Double(line_offset, floatnum));
                 }
             }
             A2lTokenType::Begin => {
